@@ -8,6 +8,7 @@ import (
 	"math/rand"
 	"net/http"
 	"net/http/httptest"
+	"strconv"
 	"strings"
 
 	"github.com/labstack/echo/v4"
@@ -56,6 +57,20 @@ func c20Run(ci any) Result {
 			}
 		}
 	}
+	hostTwin := (c.Idx+len(c.Args))%3 == 0
+	if hostTwin {
+		// a host router carries routes with the SAME names (explicit names, or the same handler functions) under
+		// other patterns: Echo.Reverse / URI / URL speak about the default router, and the request below is for
+		// the default host
+		hg := e.Host("twin.example")
+		for i, r := range c.Routes {
+			if byHandler {
+				hg.Add(r.Method, "/twin"+strconv.Itoa(i)+"/:t1/:t2/:t3", c20Handlers[i])
+			} else {
+				hg.Add(r.Method, "/twin"+strconv.Itoa(i)+"/:t1/:t2/:t3", func(ctx echo.Context) error { return ctx.NoContent(http.StatusTeapot) }).Name = name(i)
+			}
+		}
+	}
 	if byHandler {
 		e.Use(func(next echo.HandlerFunc) echo.HandlerFunc {
 			return func(ctx echo.Context) error {
@@ -96,6 +111,9 @@ func c20Run(ci any) Result {
 	}
 	toks, names, after := rNorm(rt.Path)
 	tags := []string{}
+	if hostTwin {
+		tags = append(tags, "host-router-with-equal-names")
+	}
 	if byHandler {
 		tags = append(tags, "named-by-handler(URI/URL)")
 	} else {
